@@ -278,7 +278,12 @@ Qed.
 Lemma out_index_in_range : forall width height ncomp x y ch,
   0 <= x < width -> 0 <= y < height -> 0 <= ch < ncomp ->
   0 <= (y * width + x) * ncomp + ch < out_len width height ncomp.
-Proof. intros. unfold out_len. nia. Qed.
+Proof.
+  intros width height ncomp x y ch Hx Hy Hc. unfold out_len.
+  assert (A : 0 <= y * width + x <= width * height - 1) by nia.
+  assert (B : (y * width + x) * ncomp <= (width * height - 1) * ncomp) by (apply Z.mul_le_mono_nonneg_r; lia).
+  nia.
+Qed.
 
 (* executable form used by the finite cross-checks below *)
 Definition sizes40 : list Z := map Z.of_nat (seq 1 40).
